@@ -177,6 +177,11 @@ def impl_of(R, name):
 WRAP = {"eb_add": "vf_x16_eb_add", "eb_dbl": "vf_x16_eb_dbl"}
 
 
+# state of a separate output object before the call: never-written bytes, or a valid stale value whose tag and
+# representation differ from what the routine is going to produce
+STALE_KINDS = ("poison", "poison", "affine", "affine", "projective", "projective", "alt", "identity", "identity2")
+
+
 class Case(object):
     """with Case(ctx, key, desc) as go: if go: ...   (journal, watchdog, monitor violations)"""
 
@@ -184,6 +189,11 @@ class Case(object):
         self.ctx, self.key, self.desc, self.nt, self.budget, self.setup = ctx, key, desc, nontrivial, budget, setup
 
     def __enter__(self):
+        if isinstance(self.desc, dict):
+            # what separate output objects hold before the call (PointIO.stale): part of the description so that a
+            # replay shows it, not of the key - results must not depend on it
+            self.ctx.stale_kind = self.ctx.rng.choice(STALE_KINDS)
+            self.desc["stale_output"] = self.ctx.stale_kind
         go = self.ctx.begin(self.key, self.desc, nontrivial=self.nt, budget=self.budget)
         if not go and self.setup and self.ctx.only is not None and self.key not in self.ctx.skip:
             # replay of another key: set-up steps (parameter selection, precomputed tables) still have to happen
@@ -1028,6 +1038,26 @@ class PointIO(object):
         else:
             raise ValueError(rep)
 
+    def stale(self, cv, ptr, n=1):
+        """pre-fill n separate output objects with the stale state chosen for this case"""
+        B, R = self.B, self.R
+        kind = getattr(self.ctx, "stale_kind", "poison")
+        B.eb_fill(ptr, R.poison, n)
+        if kind == "poison":
+            return
+        for i in range(n):
+            q = ptr + i * B.ebsz
+            if kind == "affine":
+                self.put(cv, q, cv.G, "B")
+            elif kind == "projective":
+                self.put(cv, q, cv.G, "P")
+            elif kind == "alt":
+                self.put(cv, q, cv.G, "H")
+            elif kind == "identity":
+                self.put(cv, q, None, "B")
+            else:
+                self.put(cv, q, None, self.rng.choice(["P", "J"]))
+
     def get(self, cv, ptr):
         """-> (point or None, coord, canonical, raw)"""
         B = self.B
@@ -1155,7 +1185,7 @@ class CurvePart(PointIO):
         with Case(ctx, key, {"P": dshow(d), "rep": rep}, nontrivial=cv.pcls(d) != "inf") as go:
             if go:
                 self.put(cv, self.p, cv.aff(d), rep)
-                B.eb_fill(self.r, R.poison)
+                self.stale(cv, self.r)
                 out = self.p if alias else self.r
                 if self.no_error(self.call(fn, out, self.p)):
                     self.expect(cv, out, cv.C.neg(cv.aff(d)))
@@ -1214,7 +1244,7 @@ class CurvePart(PointIO):
             if go:
                 self.put(cv, self.p, P, rp)
                 self.put(cv, self.q, Q, rq)
-                B.eb_fill(self.r, R.poison)
+                self.stale(cv, self.r)
                 pq = self.p if alias == 3 else self.q
                 out = {1: self.p, 2: self.q}.get(alias, self.r)
                 rawp, rawq = B.eb_get(self.p), B.eb_get(self.q)
@@ -1239,7 +1269,7 @@ class CurvePart(PointIO):
             if go:
                 P = cv.aff(d)
                 self.put(cv, self.p, P, rep)
-                B.eb_fill(self.r, R.poison)
+                self.stale(cv, self.r)
                 out = self.p if alias else self.r
                 if self.no_error(self.call(fn, out, self.p)):
                     self.expect(cv, out, cv.C.dbl(P))
@@ -1270,7 +1300,7 @@ class CurvePart(PointIO):
         with Case(ctx, key, {"half": pshow(P), "rep": rep}, nontrivial=Q is not None) as go:
             if go:
                 self.put(cv, self.p, Q, rep)
-                B.eb_fill(self.r, R.poison)
+                self.stale(cv, self.r)
                 out = self.p if alias else self.r
                 if not self.no_error(self.call("eb_hlv", out, self.p)):
                     return
@@ -1301,7 +1331,7 @@ class CurvePart(PointIO):
             if go:
                 P = cv.aff(d)
                 self.put(cv, self.p, P, rep)
-                B.eb_fill(self.r, R.poison)
+                self.stale(cv, self.r)
                 out = self.p if alias else self.r
                 if self.no_error(self.call("eb_frb", out, self.p)):
                     self.expect(cv, out, cv.C.frob(P))
@@ -1316,7 +1346,7 @@ class CurvePart(PointIO):
             if go:
                 P = cv.aff(d)
                 self.put(cv, self.p, P, rep)
-                B.eb_fill(self.r, R.poison)
+                self.stale(cv, self.r)
                 out = self.p if alias else self.r
                 if self.no_error(self.call("eb_norm", out, self.p)):
                     self.expect(cv, out, P, affine=True)
@@ -1343,7 +1373,7 @@ class CurvePart(PointIO):
                     for i in range(n):
                         self.put(cv, t + i * B.ebsz, cv.aff(ds[i]), reps[i])
                     if not alias:
-                        B.eb_fill(r, R.poison, n)
+                        self.stale(cv, r, n)
                         if stale:
                             for i in range(n):
                                 self.put(cv, r + i * B.ebsz, cv.G, "B")
@@ -1413,7 +1443,7 @@ class CurvePart(PointIO):
         elif c == 1:
             with Case(ctx, "eb_set_infty|%s|" % cv.tag, {}) as go:
                 if go:
-                    B.eb_fill(self.r, R.poison)
+                    self.stale(cv, self.r)
                     if self.no_error(self.call("eb_set_infty", self.r)):
                         self.expect(cv, self.r, None)
         elif c == 2:
@@ -1421,14 +1451,14 @@ class CurvePart(PointIO):
             with Case(ctx, "eb_copy|%s|%s|%s" % (cv.tag, cv.pcls(d), rep), {"P": dshow(d)}) as go:
                 if go:
                     self.put(cv, self.p, P, rep)
-                    B.eb_fill(self.r, R.poison)
+                    self.stale(cv, self.r)
                     if self.no_error(self.call("eb_copy", self.r, self.p)):
                         ctx.check(B.eb_get(self.r) == B.eb_get(self.p), ctx.cur_key + "|value")
         elif c == 3:
             if rng.random() < 0.1:
                 with Case(ctx, "eb_rand|%s|" % cv.tag, {}, nontrivial=False) as go:
                     if go:
-                        B.eb_fill(self.r, R.poison)
+                        self.stale(cv, self.r)
                         if self.no_error(self.call("eb_rand", self.r)):
                             got, co, canon, raw = self.get(cv, self.r)
                             ok = canon and (got is None or (len(got) == 2 and cv.C.on_curve(got) and
@@ -1441,7 +1471,7 @@ class CurvePart(PointIO):
             with Case(ctx, "eb_blind|%s|%s|%s" % (cv.tag, cv.pcls(d), self.repcls(rep)), {"P": dshow(d)}) as go:
                 if go:
                     self.put(cv, self.p, P, rep)
-                    B.eb_fill(self.r, R.poison)
+                    self.stale(cv, self.r)
                     if self.no_error(self.call("eb_blind", self.r, self.p)):
                         self.expect(cv, self.r, P)
         elif c == 5:
@@ -1466,7 +1496,7 @@ class CurvePart(PointIO):
                 if go:
                     t = B.eb_new(n)
                     try:
-                        B.eb_fill(t, R.poison, n)
+                        self.stale(cv, t, n)
                         self.put(cv, self.p, P, rep)
                         if self.no_error(self.call("eb_tab", t, self.p, w)):
                             for i in range(n):
@@ -1769,7 +1799,7 @@ class MulPart(PointIO):
                   nontrivial=cv.pcls(d) != "inf" and k % cv.n != 0) as go:
             if go:
                 self.put(cv, self.p, cv.aff(d), "B")
-                B.eb_fill(self.r, R.poison)
+                self.stale(cv, self.r)
                 R.bn_put(self.k, k)
                 raw = B.eb_get(self.p)
                 out = self.p if alias else self.r
@@ -1783,7 +1813,7 @@ class MulPart(PointIO):
         key = "eb_mul_gen|%s|sub|%s" % (cv.tag, cv.kcls(k))
         with Case(ctx, key, {"k": hx(k)}, nontrivial=k % cv.n != 0) as go:
             if go:
-                B.eb_fill(self.r, R.poison)
+                self.stale(cv, self.r)
                 R.bn_put(self.k, k)
                 res = R.call("eb_mul_gen", self.r, self.k)
                 self.judge(cv, res, self.r, cv.aff(cv.dmul(k, (1, 0))), cv.in_range(k))
@@ -1797,7 +1827,7 @@ class MulPart(PointIO):
         with Case(ctx, key, {"P": dshow(d), "k": hx(k)}, nontrivial=cv.pcls(d) != "inf" and k != 0) as go:
             if go:
                 self.put(cv, self.p, cv.aff(d), "B")
-                B.eb_fill(self.r, R.poison)
+                self.stale(cv, self.r)
                 out = self.p if alias else self.r
                 res = R.call("eb_mul_dig", out, self.p, k)
                 self.judge(cv, res, out, cv.aff(cv.dmul(k, d)), True)
@@ -1819,7 +1849,7 @@ class MulPart(PointIO):
         """exact-size table built by the library for the base point d, or None"""
         ctx, R, B = self.ctx, self.R, self.B
         tab = B.eb_new(size)
-        B.eb_fill(tab, R.poison, size)
+        self.stale(cv, tab, size)
         ok = False
         with Case(ctx, "%s|%s|%s" % (impl_of(R, pre), cv.tag, cv.pcls(d)), {"P": dshow(d)},
                   nontrivial=cv.pcls(d) != "inf", budget=600, setup=True) as go:
@@ -1845,7 +1875,7 @@ class MulPart(PointIO):
         with Case(ctx, key, {"P": dshow(d), "k": hx(k), "via": fix},
                   nontrivial=cv.pcls(d) != "inf" and k % cv.n != 0) as go:
             if go:
-                B.eb_fill(self.r, R.poison)
+                self.stale(cv, self.r)
                 R.bn_put(self.k, k)
                 res = R.call(fix, self.r, tab, self.k)
                 self.judge(cv, res, self.r, cv.aff(cv.dmul(k, d)), cv.in_range(k))
@@ -1867,7 +1897,8 @@ class MulPart(PointIO):
             sc = "in" if (cv.in_range(k) and cv.in_range(m)) else "off"
         live = k != 0 and m != 0 and "inf" not in kinds
         if not force:
-            if self.tnaf_confined(cv, impl, k, m):
+            # eb_mul_sim_joint falls back to eb_mul (w-TNAF on Koblitz curves) for a zero scalar or an infinite point
+            if self.tnaf_confined(cv, "eb_mul_lwnaf" if (impl == "eb_mul_sim_joint" and not live) else impl, k, m):
                 self.stepped += 1
                 return
         if alias is None:
@@ -1882,7 +1913,7 @@ class MulPart(PointIO):
             if go:
                 self.put(cv, self.p, cv.aff(d), "B")
                 self.put(cv, self.q, cv.aff(e), "B")
-                B.eb_fill(self.r, R.poison)
+                self.stale(cv, self.r)
                 R.bn_put(self.k, k)
                 R.bn_put(self.m, m)
                 out = {1: self.p, 2: self.q}.get(alias, self.r)
